@@ -38,6 +38,6 @@ Print Assumptions C07_sorted.
 Theorem C07_prefix_refuted : exists L i j, In L langs /\ i <> j /\
   is_prefix (nth i (l_words L) []) (nth j (l_words L) []) = true.
 Proof.
-  exists (nth 0 langs (nth 0 langs (Build_lang [] [] [] false false false false []))), 20%nat, 21%nat.
+  exists (nth 0 langs (nth 0 langs (Build_lang [] [] [] false false false false []))), 19%nat, 20%nat.
   split; [left; reflexivity|]. split; [discriminate|]. vm_compute. reflexivity.
 Qed.
